@@ -595,6 +595,12 @@ class CallMixin:
             self.oblige(st, truth(g), "call-pre", "%s.%s@%s" % (c.qn.split(".")[-1], lab, getattr(node, "lineno", "?")), node)
         pre = st.copy()
         outs = []
+        wit = {}
+        for k_, so_ in (c.local_sorts or {}).items():  # callee-internal finals: existentially quantified witnesses
+            w = fresh(so_, "wit_" + k_)
+            wit["final_" + k_] = w
+        env = dict(env)
+        env.update(wit)
         # exceptional exits
         normal = st
         for exc, cond in c.raises.items():
@@ -636,10 +642,8 @@ class CallMixin:
                 self.assume_wf(st, res, nullable=True)
         env2 = dict(env)
         env2["result"] = res
-        for k_, so_ in (c.local_sorts or {}).items():  # callee-internal finals: existentially quantified witnesses
-            w = fresh(so_, "wit_" + k_)
+        for k_, w in wit.items():
             self.assume_wf(st, w, nullable=True)
-            env2["final_" + k_] = w
         for lab, ex in c.ensures:
             st.pc.append(truth(self.eval_spec(ex, st, env2, pre, c.module)))
             if self.paranoid and not self.feasible(st):
